@@ -40,7 +40,6 @@ var extFuncs = map[string]interface{}{
 	"strings.ToValidUTF8": strings.ToValidUTF8,
 	"strconv.FormatInt":   strconv.FormatInt,
 	"strconv.FormatUint":  strconv.FormatUint,
-	"strconv.FormatBool":  strconv.FormatBool,
 	"strconv.QuoteToASCII": strconv.QuoteToASCII,
 	"strconv.QuoteToGraphic": strconv.QuoteToGraphic,
 	"strconv.QuoteRuneToASCII": strconv.QuoteRuneToASCII,
